@@ -258,7 +258,9 @@ def finish_hist(prop, profile, tier, verif_seed, all_runs, harness_errors, state
     if harness_errors:
         for e in harness_errors[:5]:
             print("HARNESS-ERROR", e[-600:])
-        return 2
+        # a violation that was found and written as a replay file stands; harness errors next to
+        # it are reported, too (a broken library can also break the harness) - never a pass
+        return 1 if (n_viol + extra_violations) else 2
     if n_runs == 0:
         print("HARNESS-ERROR no run completed")
         return 2
